@@ -165,6 +165,19 @@ def inputs(ctx):
                    "linkage2": rng.choice(LINKAGES), "mode2": rng.choice(MODES), "c2": rng.choice([0.33, 0.2])}
             items.append(("p%d" % k, P.tolist(), cfg))
             k += 1
+    # noisy decays clustered coarsely in hull mode: clusters whose span holds lower-hull points none of which is a knee
+    for _ in range(8 if ctx.quick else 60):
+        n = rng.randint(50, 80)
+        x = np.arange(n, dtype=float)
+        y = np.exp(-3.0 * x / n) + np.array([0.05 * rng.random() for _ in range(n)])
+        P = curves.mk(x, y)
+        for d in rng.sample(DETECTORS, 2):
+            cfg = {"simplifier": {"f": "rdp", "t": 0.01, "distance": "shortest", "cost": "smape"}, "detector": d, "t1": 0.001,
+                   "t2": rng.choice([4, 5]) if d in ("menger", "lmethod") else rng.choice([3, 4]),
+                   "c": 0.33, "linkage": rng.choice(LINKAGES), "t": 0.2, "mode": "hull",
+                   "linkage2": rng.choice(LINKAGES), "mode2": "hull", "c2": 0.33}
+            items.append(("p%d" % k, P.tolist(), cfg))
+            k += 1
     # step-like curves with EXACT plateaus (working sets), simplified almost not at all, clustered coarsely: clusters whose
     # slice of the reduced curve is a run of equal heights (a degenerate fit for the ranking helpers)
     for _ in range(6 if ctx.quick else 40):
